@@ -4,6 +4,7 @@
 //! Determinism rules: no HashMap iteration reaches a verdict, no clocks in verdicts, no
 //! randomness. `VERIF_SEED` only rotates the order in which shards are handed to workers.
 
+pub mod crash;
 pub mod fs;
 pub mod report;
 pub mod run;
@@ -70,14 +71,52 @@ impl Local {
 /// Enumerate indices `0..n` of sub-space `sub` on all cores. `f(i, local)` runs case i.
 /// A watchdog reports a case that makes no progress for `hang_limit` as a Hang violation
 /// (after which the run is finalised at once, since the stuck thread cannot be reclaimed).
-pub fn par<F, D>(ctx: &Ctx, sub: &str, n: u64, describe: D, f: F)
+pub fn par<F, D>(ctx: &Ctx, sub: &str, n: u64, describe: D, f: F) -> u64
 where
     F: Fn(u64, &mut Local) + Sync,
     D: Fn(u64) -> serde_json::Value + Sync,
 {
     if let Some((s, _)) = &ctx.replay_filter {
         if s != sub {
-            return;
+            return u64::MAX;
+        }
+    }
+    let ordinal = ctx.par_ordinal.fetch_add(1, Ordering::SeqCst);
+    crash::SUB_ORDINAL.store(ordinal, Ordering::SeqCst);
+    match &ctx.mode {
+        Mode::Normal => {}
+        Mode::Only { ord, idx } => {
+            if *ord == ordinal && *idx < n {
+                let mut local = Local::default();
+                f(*idx, &mut local);
+                ctx.merge(sub, local);
+            }
+            return ordinal;
+        }
+        Mode::DescribeCrash { ord, idxs } => {
+            if *ord == ordinal {
+                for &i in idxs {
+                    if i >= n {
+                        continue;
+                    }
+                    let exe = std::env::current_exe().expect("current_exe");
+                    let st = std::process::Command::new(exe)
+                        .args([&ctx.prop, ctx.tier.name(), "--only", &ordinal.to_string(), &i.to_string()])
+                        .stdout(std::process::Stdio::null())
+                        .stderr(std::process::Stdio::null())
+                        .status();
+                    let crashed = match st {
+                        Ok(s) => s.code().map(|c| c == 3 || c >= 128).unwrap_or(true),
+                        Err(_) => false,
+                    };
+                    if crashed {
+                        let d = describe(i);
+                        let key = d.get("key").and_then(|k| k.as_str()).map(|s| s.to_string()).unwrap_or_else(|| format!("crash:{}:{}", sub, i));
+                        ctx.violation(sub, &key, "Crash: the process aborted (stack overflow, allocation failure or abort) while running this case", serde_json::json!({"class": "crash", "index": i, "case": d}));
+                    }
+                }
+            }
+            return ordinal;
         }
     }
     let nw = nworkers().max(1);
@@ -112,10 +151,12 @@ where
                         for i in lo..hi {
                             slots[w].1.store(t0.elapsed().as_millis() as u64, Ordering::Relaxed);
                             slots[w].0.store(i, Ordering::Relaxed);
+                            crash::SLOTS[w % crash::MAX_SLOTS].store(i, Ordering::Relaxed);
                             f(i, &mut local);
                         }
                     }
                     slots[w].0.store(u64::MAX, Ordering::Relaxed);
+                    crash::SLOTS[w % crash::MAX_SLOTS].store(u64::MAX, Ordering::Relaxed);
                     local
                 })
                 .expect("spawn worker");
@@ -152,6 +193,58 @@ where
         let _ = wd.join();
     });
     ctx.space_done(sub, n);
+    ctx.space_wall(sub, t0.elapsed().as_secs_f64());
+    ordinal
+}
+
+/// Cases whose key is listed in KNOWN_FINDINGS.txt as a [hang] or [crash] finding are not run
+/// inside the shared explorer process (a hung thread cannot be reclaimed); each is re-run alone
+/// in a subprocess with a time limit, and reported under its key if it still hangs/aborts.
+pub fn run_isolated(ctx: &Ctx, sub: &str, ordinal: u64, cases: &[(u64, String)]) {
+    if !matches!(ctx.mode, Mode::Normal) {
+        return;
+    }
+    for (idx, key) in cases {
+        let exe = std::env::current_exe().expect("current_exe");
+        let mut child = match std::process::Command::new(exe)
+            .args([&ctx.prop, ctx.tier.name(), "--only", &ordinal.to_string(), &idx.to_string()])
+            .stdout(std::process::Stdio::null())
+            .stderr(std::process::Stdio::null())
+            .spawn()
+        {
+            Ok(c) => c,
+            Err(e) => {
+                ctx.machinery(&format!("cannot spawn isolated case: {}", e));
+                continue;
+            }
+        };
+        let t0 = Instant::now();
+        let limit = Duration::from_secs(10);
+        let verdict = loop {
+            match child.try_wait() {
+                Ok(Some(st)) => {
+                    break match st.code() {
+                        Some(0) | Some(1) => None,
+                        Some(c) => Some(format!("Crash: isolated run exited with code {}", c)),
+                        None => Some("Crash: isolated run was killed by a signal".to_string()),
+                    }
+                }
+                Ok(None) => {
+                    if t0.elapsed() > limit {
+                        let _ = child.kill();
+                        let _ = child.wait();
+                        break Some(format!("Hang: no result within {:?} when run alone in a fresh process", limit));
+                    }
+                    std::thread::sleep(Duration::from_millis(20));
+                }
+                Err(_) => break None,
+            }
+        };
+        ctx.add(sub, "known_hang_or_crash_cases_run_isolated", 1);
+        if let Some(v) = verdict {
+            ctx.violation(sub, key, &v, serde_json::json!({"class": "isolated", "index": idx}));
+        }
+    }
 }
 
 /// Run `f` on a fresh OS thread (fresh thread-local interner) with a big stack.
